@@ -803,6 +803,11 @@ def small_rewrites(t):
                 # dict({k: v for k, v in pairs}) is handled below; dict(d) of a fresh dict comprehension is that comprehension
                 if head(x) == "comp" and x[1] == "dict":
                     return x
+        if head(f) == "attr" and f[2] == "isin" and (len(t[2]) == 1 or (not t[2] and len(t[3]) == 1 and t[3][0][0] == "values")):
+            # membership test: isin(set(v)) == isin(list(v)) == isin(v)
+            a = strip(t[2][0] if t[2] else t[3][0][1])
+            if head(a) == "call" and strip(a[1]) in (("glob", "builtins.set"), ("glob", "builtins.list"), ("glob", "builtins.tuple"), ("glob", "builtins.frozenset")) and len(a[2]) == 1 and not a[3]:
+                return ("call", t[1], (a[2][0],), ()) if t[2] else ("call", t[1], (), (("values", a[2][0]),))
         if head(f) == "attr" and f[2] == "isdisjoint" and len(t[2]) == 1 and not t[3]:
             a = strip(t[2][0])
             if head(a) == "call" and strip(a[1]) == ("glob", "builtins.set") and len(a[2]) == 1 and not a[3]:
@@ -826,6 +831,11 @@ def small_rewrites(t):
         if strip(t[2]) == ("tuple", (("item", ce, 0), ("item", ce, 1))):
             return ("call", ("glob", "builtins.dict"), (ce[3],), ())
         return t
+    if h == "sub":
+        # pandas: X.index[m] == X[m].index for a boolean mask m computed from X itself
+        base_, m_ = strip(t[1]), strip(t[2])
+        if head(base_) == "attr" and base_[2] == "index" and head(m_) == "cmp" and strip(m_[2]) == strip(base_[1]):
+            return ("attr", ("sub", base_[1], t[2]), "index")
     if h == "attr" and t[2] in ("size", "shape"):
         x = strip(t[1])
         if head(x) == "sub" and strip(x[2]) == ("slice", NONE, NONE, const(-1)):
